@@ -191,6 +191,70 @@ theorem urlfor_static (pattern : Bytes) (vals : Vals)
   · rename_i h; simp [h]
   · simp
 
+open Rivaas.Reverse in
+/-- **C12 (URLFor).** For every pattern and every parameter assignment the model's round trip — `URLFor`,
+    then the request for the URL it returned — satisfies the oracle: whenever the pattern is well-formed and
+    every parameter has a value that is a valid single path segment, the route is reached again with the
+    same parameters. -/
+theorem roundtrip_meets_spec (pattern : Bytes) (vals : List (Bytes × Bytes × Bytes × Bool)) :
+    Reverse.Spec.specOK pattern vals (roundTrip pattern (vals.map strip)) = true := by
+  unfold Reverse.Spec.specOK
+  simp only
+  split
+  · rename_i happ
+    simp only [Bool.and_eq_true, List.all_eq_true] at happ
+    obtain ⟨_, hvals⟩ := happ
+    let vals' : Vals := vals.map strip
+    let val : Bytes → Bytes := fun n =>
+      match vals.find? (fun e => e.1 == n) with | some (_, v, _, _) => v | none => []
+    -- the shipped assignment, read by the model and by the oracle
+    have hfind : ∀ n, n ∈ Spec.paramNames pattern →
+        ∃ v, valOf vals' n = some v ∧ v.1 = val n ∧ v.1 ≠ [] ∧ '/' ∉ v.1 := by
+      intro n hn
+      have h := hvals n hn
+      cases hf : vals.find? (fun e => e.1 == n) with
+      | none => rw [hf] at h; simp at h
+      | some q =>
+        obtain ⟨n', v, e, rt⟩ := q
+        rw [hf] at h
+        simp only [Bool.and_eq_true, Spec.validSegment, bne_iff_ne, ne_eq, Bool.not_eq_true',
+          List.contains_eq_mem, decide_eq_false_iff_not] at h
+        refine ⟨(v, e), ?_, ?_, h.1.1, h.1.2⟩
+        · show valOf (vals.map strip) n = _
+          rw [lemma_valOf_map, hf]
+          rfl
+        · simp only [val, hf]
+    have hnames := lemma_paramNames_eq pattern
+    have hseg : ∀ n, Seg.param n ∈ parseReversePattern pattern → n ∈ Spec.paramNames pattern := by
+      intro n hn
+      rw [hnames, List.mem_filterMap]
+      exact ⟨_, hn, rfl⟩
+    by_cases hp : (parseReversePattern pattern).any Seg.isParam = true
+    · obtain ⟨path, hseen, hmatch⟩ := urlfor_roundtrip pattern vals' hp
+        (fun n hn => let ⟨v, h1, _, h3, h4⟩ := hfind n (hseg n hn); ⟨v, h1, h3, h4⟩)
+      obtain ⟨parts, hparts⟩ := lemma_render_some vals' true (parseReversePattern pattern)
+        (fun n hn => let ⟨v, h1, _⟩ := hfind n (hseg n hn); ⟨v, h1⟩)
+      have hurl : buildURL pattern vals' = some ('/' :: joinSlash parts) := by
+        simp [buildURL, buildWith, hp, hparts]
+      have hb := lemma_bound_eq vals' (parseReversePattern pattern) val
+        (fun n hn => let ⟨v, h1, h2, _⟩ := hfind n (hseg n hn); ⟨v, h1, h2⟩)
+      show (match roundTrip pattern vals' with
+        | .routedBack _ ps => ps == (Spec.paramNames pattern).map fun n => (n, val n)
+        | _ => false) = true
+      simp only [roundTrip, hurl, hseen, hmatch, hb, hnames, beq_self_eq_true]
+    · have hp' : (parseReversePattern pattern).any Seg.isParam = false := by simpa using hp
+      obtain ⟨h1, h2, h3⟩ := urlfor_static pattern vals' hp'
+      have hnil : Spec.paramNames pattern = [] := by
+        rw [hnames]
+        have := lemma_any_param (parseReversePattern pattern)
+        rw [hp'] at this
+        simpa using this
+      show (match roundTrip pattern vals' with
+        | .routedBack _ ps => ps == (Spec.paramNames pattern).map fun n => (n, val n)
+        | _ => false) = true
+      simp [roundTrip, h1, h2, h3, hnil]
+  · rfl
+
 /-! ### the code as shipped: witnesses of K12, K12b, K12c (replayed on the implementation, corpus/C12) -/
 
 def servedOps : List Op :=
